@@ -132,6 +132,20 @@ func lexSpec(src string) ([]tok, error) {
 					}
 					j++
 				}
+				// exponent
+				if j < len(src) && (src[j] == 'e' || src[j] == 'E') {
+					k := j + 1
+					if k < len(src) && (src[k] == '-' || src[k] == '+') {
+						k++
+					}
+					if k < len(src) && unicode.IsDigit(rune(src[k])) {
+						for k < len(src) && unicode.IsDigit(rune(src[k])) {
+							k++
+						}
+						j = k
+						isf = true
+					}
+				}
 			}
 			if isf {
 				out = append(out, tok{"float", src[i:j]})
@@ -538,6 +552,7 @@ type Clause struct {
 	Line string // file:line
 	Name string // optional label
 	When Expr   // modifies ... when cond
+	Pkg  string // package of the contract file the clause was written in
 }
 
 type FuncSpec struct {
@@ -551,7 +566,8 @@ type FuncSpec struct {
 	LoopMods map[int][]*Clause
 	Inline   bool
 	Pure     bool // extern: writes nothing, result is a function of arguments only if declared `function`
-	Function bool // result is an uninterpreted function of the arguments
+	Function bool
+	FunctionAs string // name of the uninterpreted spec function that stands for the result // result is an uninterpreted function of the arguments
 	Arith    string
 	Props    []string
 	Writes   []string // extern: heap names written; "ALL" allowed
@@ -569,11 +585,30 @@ type FuncSpec struct {
 	Access    []AccessRule   // lock discipline: conditions on accesses to a struct field
 	CallReqs  map[string][]*Clause // extra preconditions at calls of a named callee
 	AfterWait []*Clause      // fork/join: assumed after sync.WaitGroup.Wait returns
+	GhostInits []GhostInit
+	Chooses   []ChooseClause // witnesses of existential postconditions of callees
+	Assumes2  []*Clause      // `assumes`: taken for granted at entry, NOT checked at call sites (listed in the evidence)
+	Guarantees []*Clause     // goroutine: holds whenever it releases a lock and when it ends; spawner may assume it
 	GoReqs    bool
 	GhostParams []QVar                      // logical variables of the contract, bound by callers with `callghost`
 	CallGhost   map[string]map[string]Expr // callee short name -> ghost parameter -> expression in the caller
 	Claims   []*Clause // for `prove` blocks: stand-alone lemmas to be proved
 	Assumes  []*Clause // hypotheses of a `prove` block
+}
+
+// GhostInit: `ghostinit <specfn> <local> = <expr> after <callee>` fixes the
+// value of the uninterpreted ghost function specfn at the address of a local
+// variable of the function (a lock's ghost argument), once.
+type GhostInit struct {
+	Fn, Local, Callee string
+	E                 Expr
+	Src, Line         string
+}
+
+type ChooseClause struct {
+	Name, Type, Callee string
+	E                  Expr
+	Src, Line          string
 }
 
 type AccessRule struct {
@@ -630,7 +665,7 @@ func newSpecSet() *SpecSet {
 var clauseKeywords = map[string]bool{"func": true, "requires": true, "ensures": true, "modifies": true,
 	"loop": true, "inline": true, "props": true, "arith": true, "pure": true, "function": true, "writes": true,
 	"type": true, "spec": true, "lemma": true, "global": true, "trusted": true, "ghost": true, "allocs": true,
-	"skip": true, "end": true, "uses": true, "ghostvar": true, "prove": true, "claim": true, "given": true, "ghostparam": true, "callghost": true, "access": true, "callreq": true, "afterwait": true, "lockinv": true}
+	"skip": true, "end": true, "uses": true, "ghostvar": true, "prove": true, "claim": true, "given": true, "ghostparam": true, "callghost": true, "access": true, "callreq": true, "afterwait": true, "lockinv": true, "guarantee": true, "assumes": true, "choose": true, "ghostinit": true}
 
 // specLines extracts the //@ payload lines of a Go file, or all lines of a
 // .spec file.
@@ -748,7 +783,7 @@ func (ss *SpecSet) parseFile(path, pkg string) error {
 			if err != nil {
 				return fail(err)
 			}
-			c := &Clause{Kind: kw, Src: rest, E: e, Line: where, Name: name}
+			c := &Clause{Kind: kw, Src: rest, E: e, Line: where, Name: name, Pkg: pkg}
 			if kw == "requires" {
 				cur.Requires = append(cur.Requires, c)
 			} else {
@@ -759,7 +794,7 @@ func (ss *SpecSet) parseFile(path, pkg string) error {
 				return fail(fmt.Errorf("clause outside func block"))
 			}
 			cur.HasMod = true
-			c := &Clause{Kind: kw, Src: rest, Line: where}
+			c := &Clause{Kind: kw, Src: rest, Line: where, Pkg: pkg}
 			if k := strings.Index(rest, " when "); k >= 0 {
 				w, err := parseExpr(rest[k+6:])
 				if err != nil {
@@ -828,6 +863,7 @@ func (ss *SpecSet) parseFile(path, pkg string) error {
 		case "function":
 			cur.Pure = true
 			cur.Function = true
+			cur.FunctionAs = strings.TrimSpace(rest)
 		case "trusted":
 			cur.Trusted = true
 		case "allocs":
@@ -955,6 +991,49 @@ func (ss *SpecSet) parseFile(path, pkg string) error {
 				cur.CallReqs = map[string][]*Clause{}
 			}
 			cur.CallReqs[f[0]] = append(cur.CallReqs[f[0]], &Clause{Kind: "callreq", Src: rest[k+10:], E: e, Line: where})
+		case "ghostinit":
+			// ghostinit <specfn> <local> = <expr> after <callee>
+			f := strings.Fields(rest)
+			k := strings.Index(rest, " = ")
+			k2 := strings.LastIndex(rest, " after ")
+			if cur == nil || len(f) < 6 || f[2] != "=" || k < 0 || k2 < k {
+				return fail(fmt.Errorf("ghostinit <specfn> <local> = <expr> after <callee>"))
+			}
+			e, err := parseExpr(rest[k+3 : k2])
+			if err != nil {
+				return fail(err)
+			}
+			cur.GhostInits = append(cur.GhostInits, GhostInit{Fn: f[0], Local: f[1], Callee: strings.TrimSpace(rest[k2+7:]), E: e, Src: rest, Line: where})
+		case "choose":
+			// choose <name> <type> after <callee> suchthat <expr>
+			f := strings.Fields(rest)
+			k := strings.Index(rest, " suchthat ")
+			if cur == nil || len(f) < 6 || f[2] != "after" || k < 0 {
+				return fail(fmt.Errorf("choose <name> <type> after <callee> suchthat <expr>"))
+			}
+			e, err := parseExpr(rest[k+10:])
+			if err != nil {
+				return fail(err)
+			}
+			cur.Chooses = append(cur.Chooses, ChooseClause{Name: f[0], Type: f[1], Callee: f[3], E: e, Src: rest[k+10:], Line: where})
+		case "assumes":
+			if cur == nil {
+				return fail(fmt.Errorf("clause outside func block"))
+			}
+			e, err := parseExpr(rest)
+			if err != nil {
+				return fail(err)
+			}
+			cur.Assumes2 = append(cur.Assumes2, &Clause{Kind: "assumes", Src: rest, E: e, Line: where})
+		case "guarantee":
+			if cur == nil {
+				return fail(fmt.Errorf("clause outside func block"))
+			}
+			e, err := parseExpr(rest)
+			if err != nil {
+				return fail(err)
+			}
+			cur.Guarantees = append(cur.Guarantees, &Clause{Kind: "guarantee", Src: rest, E: e, Line: where})
 		case "afterwait":
 			if cur == nil {
 				return fail(fmt.Errorf("clause outside func block"))
@@ -968,6 +1047,13 @@ func (ss *SpecSet) parseFile(path, pkg string) error {
 		case "lockinv":
 			// lockinv <Type>.<mutexField> = <specfn>
 			f := strings.Fields(rest)
+			if len(f) >= 4 && f[0] == "local" && f[2] == "=" {
+				// lockinv local <Func>.<var> = <expr over the function's variables>
+				k := strings.Index(rest, "=")
+				ss.LockInvs[pkg+".local "+f[1]] = strings.TrimSpace(rest[k+1:])
+				cur = nil
+				continue
+			}
 			if len(f) != 3 || f[1] != "=" || !strings.Contains(f[0], ".") {
 				return fail(fmt.Errorf("lockinv <Type>.<field> = <specfn>"))
 			}
